@@ -16,6 +16,7 @@ import GherkinVerif.Spec.TextLevel
 import Driver.GenAst
 import GherkinVerif.Spec.LayoutChecks
 import GherkinVerif.Spec.LayoutChecks2
+import GherkinVerif.Spec.LayoutChecks3
 open GV
 
 namespace Driver
@@ -96,7 +97,7 @@ def handle (op : String) (as : List (List Nat)) : J :=
             ("indent", .bool (!src'.isEmpty && Spec.indentOkB D T (flag as 0) μ 0 src' src)),
             ("indent2", .bool (!src'.isEmpty && Spec.indentOk2B D T (flag as 0) μ 0 src' src)),
             ("comment", .arr (if c.isEmpty then [] else
-              ((List.range (n + 1)).filter fun k => Spec.commentLineOkB D T (flag as 0) μ 0 src k c).map J.num))]
+              ((List.range (n + 1)).filter fun k => Spec.commentLineOk2B D T (flag as 0) μ 0 src k c).map J.num))]
   | "textaccepts" =>
     -- default dialect | src : text-level acceptor (Spec/TextLevel.lean) and the intrinsic kinds along the run
     match MState.init D (arg as 0) with
